@@ -261,6 +261,13 @@ fn exec_iv(st: &mut State, name: &str, t: &[&str]) -> String {
         "items" => { let xs: Vec<u64> = v.iter().collect(); words_to_string(&xs) },
         "into_iter" => { let xs: Vec<u64> = v.clone().into_iter().collect(); words_to_string(&xs) },
         "ser" | "doc" => words_to_string(&ser_words(v)),
+        // owning iterator (IntoIterator for IntVector): forward calls n / N<k> / l
+        "into_it" => {
+            let mut it = v.clone().into_iter();
+            let mut out: Vec<String> = Vec::new();
+            for c in &t[1..] { out.push(iter_call_fwd_u64(&mut it, c)); }
+            out.join(" ")
+        },
         // iterator call history: it <call>*  with call ∈ n (next) b (next_back) N<k> (nth k) B<k> (nth_back k) l (len)
         "it" => {
             let mut it = v.iter();
@@ -271,6 +278,16 @@ fn exec_iv(st: &mut State, name: &str, t: &[&str]) -> String {
             out.join(" ")
         },
         _ => panic!("harness: unknown iv op {}", t[0]),
+    }
+}
+
+pub fn iter_call_fwd_u64<I: Iterator<Item = u64> + ExactSizeIterator>(it: &mut I, c: &str) -> String {
+    let f = |x: Option<u64>| match x { Some(v) => format!("s{}", v), None => "-".to_string() };
+    match c.as_bytes()[0] {
+        b'n' => f(it.next()),
+        b'N' => f(it.nth(parse_usize(&c[1..]))),
+        b'l' => format!("l{}", it.len()),
+        _ => panic!("harness: bad iterator call {}", c),
     }
 }
 
